@@ -112,6 +112,10 @@ type scenario struct {
 	single     bool // single-step: lower bound applies
 	privErr    bool // a stall may surface as a privilege error
 	perOp      bool // honours a per-operation timeout
+	// ncSeen / ncNext (NETCONF operations): how many requests the server has received; one more
+	// rpc (recovery clause)
+	ncSeen func() int
+	ncNext func() (string, error)
 	// finalLine (multi-step operations whose last step takes the per-operation timeout): once the
 	// device has received this line the stall lies in that last step
 	finalLine  string
@@ -439,8 +443,14 @@ func build(c *Case) (*scenario, error) {
 				return []sim.NCAction{{Payload: fmt.Sprintf(subReply, sim.BaseNS, r.MessageID), TrailLF: true}}
 			}
 
+			if r.Index > 0 {
+				// (later requests say which request of the session they answer)
+				return []sim.NCAction{{Payload: fmt.Sprintf(`<rpc-reply xmlns="%s" message-id="%s"><data>%s</data><seq>%d</seq></rpc-reply>`, sim.BaseNS, r.MessageID, "v"+r.MessageID, r.Index), TrailLF: true}}
+			}
+
 			return []sim.NCAction{{Payload: fmt.Sprintf(`<rpc-reply xmlns="%s" message-id="%s"><data>%s</data></rpc-reply>`, sim.BaseNS, r.MessageID, "v"+r.MessageID), TrailLF: true}}
 		}
+		s.ncSeen = func() int { return len(srv.Requests) }
 		s.pipe = sim.NewPipe(srv)
 		srv.Pipe = s.pipe
 		s.pipe.Plan = c.Plan
@@ -450,6 +460,14 @@ func build(c *Case) (*scenario, error) {
 			return nil, err
 		}
 
+		s.ncNext = func() (string, error) {
+			r, e := d.Get("")
+			if e != nil {
+				return "", e
+			}
+
+			return r.Result, nil
+		}
 		s.ch = d.Channel
 		s.closeF = func() {
 			done := make(chan struct{})
@@ -903,6 +921,25 @@ func run(c Case) ev.Verdict {
 		}
 
 		v.Classes = append(v.Classes, "recovery")
+	}
+
+	// the same clause for NETCONF: the stalled rpc had been received by the server; when its reply
+	// finally arrives it belongs to nobody, and the next rpc gets the answer to its own request
+	if s.ncNext != nil && s.ncSeen != nil && !s.open && s.ncSeen() == 1 {
+		time.Sleep(50 * time.Millisecond)
+		s.pipe.ClearFault()
+		time.Sleep(200 * time.Millisecond)
+
+		nres, nerr := s.ncNext()
+		if nerr != nil {
+			return ev.Fail("%s: after the timeout and the server catching up, the next rpc failed: %v", c.Op, nerr)
+		}
+
+		if !strings.Contains(nres, "<seq>1</seq>") {
+			return ev.Fail("%s: after the timeout the next rpc returned %q, which is not the answer to the second request of the session", c.Op, nres)
+		}
+
+		v.Classes = append(v.Classes, "recovery-netconf")
 	}
 
 	if c.Op == "interactive" && s.lines != nil {
